@@ -39,7 +39,7 @@ def sig_list(nodes):
 SPECIAL = [
     "$.items[?@.price < $.limit].name", "$..[?@.a == $.a]", "$[?@[?@.a > $.limit]]", "$..[?count(@.*) > $.n]", "$[?match(@.s, $.p)]",
     "$.items[?@.price < $.limit]..*", "$..[?@.id]", "$[?search(@.name, 'a')].name", "$[?match(@.name, '[ab].*')]", "$.items[*].name",
-    "$..*", "$[?length(@.name) == $.n]",
+    "$..*", "$[?length(@.name) == $.n]", "$..[*]", "$..name", "$..[0]", "$..items[*]", "$..[?@.name]", "$.items..*", "$..a", "$..*..id",
 ]
 
 
@@ -432,7 +432,7 @@ def thread_run(jp, rec, R, run_id):
 
 def plan(tier, seed, nproc, scale):
     shards = nproc if tier == "quick" else nproc * 4
-    cases = int((480 if tier == "quick" else 12000) * scale)
+    cases = int((1600 if tier == "quick" else 24000) * scale)
     runs = int((48 if tier == "quick" else 1600) * scale)
     specs = [{"kind": "schedules", "seed": "%d/a%d" % (seed, i), "n": max(1, cases // shards)} for i in range(shards)]
     specs += [{"kind": "threads", "seed": "%d/b%d" % (seed, i), "n": max(1, runs // shards)} for i in range(shards)]
